@@ -1370,6 +1370,7 @@ func init() {
 				return d
 			}
 		}
+		time.Sleep(idle) // the input goes quiet (the bucket fills up) and is closed only then
 		close(in)
 		if _, ok := <-out; ok {
 			return "an element nobody sent"
